@@ -323,6 +323,11 @@ class FormulaMaterializer(metaclass=FormulaMaterializerMeta):
             overrides: dict[str, Any] = {
                 "materializer": self.REGISTER_NAME,
                 "materializer_params": self.params,
+                # State is recorded on the spec attached to the result; never on
+                # the (frozen) spec that was passed in, which shares these
+                # dictionaries with every copy made from it.
+                "transform_state": dict(model_spec.transform_state),
+                "encoder_state": dict(model_spec.encoder_state),
             }
 
             if model_spec.output is None:
